@@ -4,6 +4,8 @@ import (
 	"runtime"
 	"sync"
 	"time"
+
+	"github.com/zishang520/engine.io/v2/verifhook"
 )
 
 // Timer is a one-shot (SetTimeout) or repeating (SetInterval) timer.
@@ -39,6 +41,7 @@ func (t *Timer) arm() {
 
 // fire runs on the runtime timer's own goroutine.
 func (t *Timer) fire(gen uint64) {
+	verifhook.At("timer.fired", t)
 	t.mu.Lock()
 	if t.gen != gen {
 		// cancelled or refreshed after this tick fired
